@@ -1,55 +1,155 @@
 /-
 C01 — a returned factorization always multiplies back to the input.
 Only property theorems live here (helper lemmas: Ymq/Lemmas/Factor*.lean).
+
+Model: Ymq/Model/Factor.lean (`factor`, `factorImpl`, `checkFactors` = src/lib.rs `factor`,
+`factor_impl`, `check_factors`), every sub-algorithm a field of a stateful `Oracle σ`.
+`OracleOK` (Ymq/Lemmas/FactorOracle.lean) is the contract of the sub-algorithms.
 -/
-import Ymq.Lemmas.FactorBasic
+import Ymq.Lemmas.FactorExample
 
 namespace Ymq.C01
 open Ymq.Factor
 
 variable {σ : Type}
 
+/-- For ANY behaviour of the sub-algorithms (arbitrary stateful oracle, any fuel, any selector,
+any `n`, no size bound): a returned list never contains 1. Structural: `factor_impl` returns at
+once on 1, and no push site can push 1 (`n` itself, `f / g` with `g ≠ f`, `g` with `g ≠ 1`,
+trial primes). -/
+theorem factor_no_one (o : Oracle σ) (fuel n : Nat) (alg : Algo) (os : σ) (l : List Nat)
+    (h : factor o fuel n alg os = .ok l) : 1 ∉ l := by
+  rcases factor_ok h with ⟨_, rfl⟩ | ⟨_, s', hrun, rfl, _⟩
+  · simp
+  · intro h1
+    have h1' : 1 ∈ s'.factors := (sortNat_perm _).mem_iff.mp h1
+    obtain ⟨new, gnew, hf, _, _, hone⟩ := factorImpl_ext o alg _ _ _ _ hrun
+    rw [hf] at h1'
+    rcases List.mem_append.mp h1' with h2 | h2
+    · have := smallPrimes_ge_two 1 ((trialDiv_spec n).2 1 h2)
+      omega
+    · exact hone h2
+
 /-- For ANY behaviour of the sub-algorithms (arbitrary stateful oracle, any fuel, any selector):
 a returned list is sorted, its product is `n` modulo the 1024-bit word size of `Uint`
-(hence exactly `n` whenever the true product stays below 2^1024), `0 ↦ [0]`, and a list
-returned for `n ≥ 1` contains no `0`. -/
+(hence exactly `n` whenever the true product stays below 2^1024), `0 ↦ [0]`, `1 ↦ []`, and a
+list returned for `n ≥ 2` contains neither `0` nor `1`. -/
 theorem factor_sound (o : Oracle σ) (fuel n : Nat) (alg : Algo) (os : σ) (l : List Nat)
     (hn : n < U) (h : factor o fuel n alg os = .ok l) :
-    l.prod % U = n ∧ l.Pairwise (· ≤ ·) ∧ (n = 0 → l = [0]) ∧ (1 ≤ n → 0 ∉ l) := by
-  unfold factor at h
-  by_cases h0 : n = 0
-  · subst h0
-    simp only [if_true] at h
-    injection h with h; subst h
-    exact ⟨by simp, by simp, fun _ => rfl, fun h => by omega⟩
-  · simp only [h0, if_false] at h
-    split at h
-    · exact absurd h (by simp)
-    split at h <;> try (exact absurd h (by simp))
-    rename_i s _
-    have key : ∀ fs : List Nat, checkProduct n fs = Out.ok l →
-        l.prod % U = n ∧ l.Pairwise (· ≤ ·) ∧ (n = 0 → l = [0]) ∧ (1 ≤ n → 0 ∉ l) := by
-      intro fs hfs
-      unfold checkProduct at hfs
-      split at hfs
-      · exact absurd hfs (by simp)
-      · rename_i hp
-        injection hfs with hfs; subst hfs
-        have hp' : n % U = fs.prod % U := by simpa using hp
-        have hnU : n % U = n := Nat.mod_eq_of_lt hn
-        refine ⟨by rw [sortNat_prod, ← hp', hnU], sortNat_sorted fs, fun h => absurd h h0, ?_⟩
-        intro _ hmem
-        have : (sortNat fs).prod = 0 := prod_zero_of_mem _ hmem
-        rw [sortNat_prod] at this
-        rw [this, hnU] at hp'
-        simp at hp'; exact h0 hp'
-    unfold checkFactors at h
-    split at h
-    · split at h
-      · exact absurd h (by simp)
-      · split at h
-        · exact absurd h (by simp)
-        · exact key _ h
-    · exact key _ h
+    l.prod % U = n ∧ l.Pairwise (· ≤ ·) ∧ (n = 0 → l = [0]) ∧ (n = 1 → l = []) ∧
+      (1 ≤ n → ∀ x ∈ l, 2 ≤ x) := by
+  have hone := factor_no_one o fuel n alg os l h
+  rcases factor_ok h with ⟨rfl, rfl⟩ | ⟨h0, s', hrun, rfl, hprod⟩
+  · exact ⟨by simp, by simp, fun _ => rfl, fun h => by omega, fun h => by omega⟩
+  · have hnU : n % U = n := Nat.mod_eq_of_lt hn
+    have hzero : 0 ∉ sortNat s'.factors := by
+      intro hmem
+      have : (sortNat s'.factors).prod = 0 := prod_zero_of_mem _ hmem
+      rw [sortNat_prod] at this
+      rw [this, hnU] at hprod
+      simp at hprod; exact h0 hprod
+    refine ⟨by rw [sortNat_prod, ← hprod, hnU], sortNat_sorted _, fun h => absurd h h0, ?_, ?_⟩
+    · intro h1
+      subst h1
+      rw [factorRun_one hrun]
+      rfl
+    · intro _ x hx
+      have hx0 : x ≠ 0 := fun h => hzero (h ▸ hx)
+      have hx1 : x ≠ 1 := fun h => hone (h ▸ hx)
+      omega
+
+/-- **`retain_residue_one`** (lib.rs:513-522): when all current factors are positive and the
+sieve divisor `d` divides their product, the residue after the `retain` pass is 1 — so
+`assert!(residue.is_one())` holds — and no `residue /= gcd` divides by zero.
+Key fact: `r ∣ f·m → r / gcd(f, r) ∣ m`. -/
+theorem retain_residue_one (facs : List Nat) (d : Nat) (hpos : ∀ f ∈ facs, 0 < f)
+    (hd : d ∣ facs.prod) : (retainPass facs d).2.2 = 1 ∧ retainDivZero facs d = false :=
+  retainPass_residue_one facs d hpos hd
+
+/-- **`combineDiv_prod`** (lib.rs:509-535), for ANY `d`: a combination step that does not panic
+keeps the product of `facs`, and keeps all elements `≥ 2`. -/
+theorem combineDiv_prod (facs facs' : List Nat) (d : Nat) (h : combineDiv facs d = .ok facs') :
+    facs'.prod = facs.prod ∧ ((∀ f ∈ facs, 2 ≤ f) → ∀ f ∈ facs', 2 ≤ f) := by
+  obtain ⟨hp, hm⟩ := combineDiv_ok h
+  refine ⟨hp, ?_⟩
+  intro h2 x hx
+  obtain ⟨f, hf, hdvd, hone⟩ := hm x hx
+  have hf2 := h2 f hf
+  have hx0 : 0 < x := Nat.pos_of_dvd_of_pos hdvd (by omega)
+  have hx1 : x ≠ 1 := fun h => by have := hone h; omega
+  omega
+
+/-- **`combineDiv_no_panic`**: with factors `≥ 1` and `d` a divisor of their product the step
+succeeds (neither the division by the gcd nor `assert!(residue.is_one())` can fail). -/
+theorem combineDiv_no_panic (facs : List Nat) (d : Nat) (hpos : ∀ f ∈ facs, 0 < f)
+    (hd : d ∣ facs.prod) : ∃ facs', combineDiv facs d = .ok facs' :=
+  Ymq.Factor.combineDiv_no_panic facs d hpos hd
+
+/-- **`factorImpl_prod`**: under the oracle contract, a successful `factor_impl(n)` (`n ≥ 1`)
+appends to the vector a block whose product is exactly `n`; every appended element is `≥ 2` and
+divides `n`. In particular the product of the vector is multiplied by `n`. -/
+theorem factorImpl_prod (o : Oracle σ) (hok : OracleOK o) (fuel n : Nat) (alg : Algo)
+    (s s' : St σ) (hn : 1 ≤ n) (h : factorImpl o fuel n alg s = .ok s') :
+    ∃ new, s'.factors = s.factors ++ new ∧ new.prod = n ∧ (∀ x ∈ new, 2 ≤ x ∧ x ∣ n) ∧
+      s'.factors.prod = s.factors.prod * n := by
+  obtain ⟨new, hf, hp⟩ := factorImpl_mul hok alg fuel n s s' hn h
+  obtain ⟨new', _, hf', _, _, hone⟩ := factorImpl_ext o alg fuel n s s' h
+  have : new' = new := List.append_cancel_left (hf'.symm.trans hf)
+  subst this
+  refine ⟨new', hf, hp, ?_, by rw [hf, List.prod_append, hp]⟩
+  intro x hx
+  have hd : x ∣ n := hp ▸ List.dvd_prod hx
+  have hx0 : 0 < x := Nat.pos_of_dvd_of_pos hd (by omega)
+  have hx1 : x ≠ 1 := fun h => hone (h ▸ hx)
+  exact ⟨by omega, hd⟩
+
+/-- **`factor_exact`**: under the oracle contract (any `prime`, any `abort`, any fuel, any
+selector, any `n` — no wrap-around can occur because the invariant is exact): a returned list
+multiplies to exactly `n`, is sorted, and every element divides `n` and is `≥ 2` (for `n ≥ 1`). -/
+theorem factor_exact (o : Oracle σ) (hok : OracleOK o) (fuel n : Nat) (alg : Algo) (os : σ)
+    (l : List Nat) (h : factor o fuel n alg os = .ok l) :
+    l.prod = n ∧ l.Pairwise (· ≤ ·) ∧ ∀ x ∈ l, x ∣ n ∧ (1 ≤ n → 2 ≤ x) := by
+  rcases factor_ok h with ⟨rfl, rfl⟩ | ⟨h0, s', hrun, rfl, _⟩
+  · exact ⟨by simp, by simp, by simp⟩
+  · obtain ⟨new, hf, hp, hnew, _⟩ :=
+      factorImpl_prod o hok fuel _ alg _ s' (trialDiv_cofactor_pos h0) hrun
+    obtain ⟨hspec, hsmall⟩ := trialDiv_spec n
+    have hprod : s'.factors.prod = n := by
+      rw [hf, List.prod_append, hp]; exact hspec
+    refine ⟨by rw [sortNat_prod, hprod], sortNat_sorted _, ?_⟩
+    intro x hx
+    have hx' : x ∈ s'.factors := (sortNat_perm _).mem_iff.mp hx
+    refine ⟨hprod ▸ List.dvd_prod hx', fun _ => ?_⟩
+    rw [hf] at hx'
+    rcases List.mem_append.mp hx' with h2 | h2
+    · exact smallPrimes_ge_two x (hsmall x h2)
+    · exact (hnew x h2).1
+
+/-! ### non-vacuity -/
+
+open Ymq.Factor.Toy
+
+/-- n = 2²·211·223 through the SIQS arm (sieve divisor 211, combination loop, final loop) -/
+example : factor toy 5 188212 .siqs () = .ok [2, 2, 211, 223] := by decide +kernel
+
+example : [2, 2, 211, 223].prod = 188212 ∧ [2, 2, 211, 223].Pairwise (· ≤ ·) ∧
+    ∀ x ∈ [2, 2, 211, 223], x ∣ 188212 ∧ (1 ≤ 188212 → 2 ≤ x) :=
+  factor_exact toy toy_ok 5 188212 .siqs () _ (by decide +kernel)
+
+example : 1 ∉ [2, 2, 211, 223] :=
+  factor_no_one toy 5 188212 .auto () _ (by decide +kernel)
+
+example : [2, 2, 211, 223].prod % U = 188212 :=
+  (factor_sound toy 5 188212 .ecm () [2, 2, 211, 223]
+    (lt_U_of_lt_two_pow (k := 18) (by decide) (by decide))
+    (by decide +kernel)).1
+
+example : (retainPass [47053] 211).2.2 = 1 ∧ retainDivZero [47053] 211 = false :=
+  retain_residue_one [47053] 211 (by decide) (by decide)
+
+example : combineDiv [47053] 211 = .ok [223, 211] := by decide +kernel
+
+example : ∃ new, (initSt () [2, 2]).factors ++ new = [2, 2, 211, 223] ∧ new.prod = 47053 :=
+  ⟨[211, 223], by decide, by decide⟩
 
 end Ymq.C01
